@@ -103,9 +103,13 @@ def addIdx (n f : Nat) (pos : Int) : Nat :=
   else if pos > 0 then min (f + (pos.toNat - 1)) n
   else if (-pos).toNat < n then n - (-pos).toNat else f
 
+/-- indices (counted from `b`) of the entries equal to `key` -/
+def midx (key : Name) : List Name → Nat → List Nat
+  | [], _ => []
+  | n :: ns, b => if n = key then b :: midx key ns (b + 1) else midx key ns (b + 1)
+
 /-- indices of the elements of a sibling list whose name is `nm` -/
-def namesakes (l : Forest) (nm : Name) : List Nat :=
-  (List.range l.length).filter fun i => (l[i]?.map Tree.name) == some nm
+def namesakes (l : Forest) (nm : Name) : List Nat := midx nm (l.map Tree.name) 0
 
 /-- by-name placement relative to the elements called like the node: 0 = behind the last of them,
     `k > 0` = in front of the k-th one counted from `first` (behind the last one of the whole list
